@@ -16,6 +16,7 @@
 import LccModel.Model.RunAccept
 import LccModel.Lemmas.SchedInterrupt
 import LccModel.Lemmas.RunFlags
+import LccModel.Lemmas.RunBody
 import LccModel.Props.C01
 import LccModel.Props.C03
 
@@ -209,6 +210,33 @@ open LccModel.Run in
 theorem user_code_never_sets_abort_flags (u : UnitId) (sc : Script) (ts : TS) :
     (exec (runUnit u sc) ts).2.abortAll = ts.abortAll ∧ (exec (runUnit u sc) ts).2.abortedSuites = ts.abortedSuites :=
   keeps_runUnit u sc ts
+
+open LccModel.Run in
+/-- **An Abort* raised by the setup of a PER-THREAD fixture is handled like one raised by the body.**  A fixture
+    declared `per_thread=True` is evaluated at its first use by a worker, i.e. inside the test task while the
+    arguments of the test are prepared (`TestTask._prepare_test_args` → `lookupAll` → `getFixtureResult` runs the
+    fixture's setup script).  For every project, test, worker and state in which the test is still successful: if
+    that evaluation is left by an exception of class `c`, the test body is not entered and the abort flags after the
+    test's body phase are exactly those `handle_exception` sets for `c` on the flags the task STARTED with (the
+    evaluation itself — user code — touches none): `AbortAllTests` and its subclasses abort the session,
+    `AbortSuite` and its subclasses the test's suite — so the tests that have not started are skipped
+    (`abort_all_and_subclasses_skip_everything`, `abort_suite_and_subclasses_skip_the_suite`). -/
+theorem abort_in_per_thread_fixture_setup_is_handled (P : Proj) (svs : List SuiteView) (w : Nat) (path : Report.Path)
+    (tsp : TestSpec) (ts s1 : TS) (c : ExcClass)
+    (hok : Session.isSuccessful ts.sess (.test path) = true)
+    (hl : exec (lookupAll P svs w (.test path) path.dropLast tsp.fixtures) ts = (some c.kind, s1)) :
+    exec (testBody P svs w path tsp) ts = exec (handleException c.kind (some path.dropLast) true) s1 ∧
+    (exec (testBody P svs w path tsp) ts).2.abortAll = (ts.abortAll || (c == .abortAll || c == .subAbortAll)) ∧
+    (exec (testBody P svs w path tsp) ts).2.abortedSuites =
+      ts.abortedSuites ++ (if c == .abortSuite || c == .subAbortSuite then [some path.dropLast] else []) := by
+  have hb : exec (testBody P svs w path tsp) ts = exec (handleException c.kind (some path.dropLast) true) s1 := by
+    rw [testBody_exec, hok]; simp only; rw [hl]
+  have hk := keeps_lookupAll P svs w (.test path) path.dropLast tsp.fixtures ts
+  rw [hl] at hk
+  have he := abort_class_effects c path.dropLast s1
+  refine ⟨hb, ?_, ?_⟩
+  · rw [hb, he.1, hk.1]
+  · rw [hb, he.2, hk.2]
 
 open LccModel.Run LccModel.Run.FlagSample in
 /-- non-vacuity / the concrete behaviour (project `FlagSample.P`): test `s.t`'s only failing act is `raise` of an
